@@ -64,6 +64,14 @@ CLAIMED = {
         "Tie: exact-body assertions of _init_cutoff, _check_positive, create_cutoff and the factories' defaults; parser results compared bit for bit with the model on decimal lattices (both grids); written row counts on all 11 targets.",
    note="Trusted: Coq kernel; Flocq as the definition of binary64; Python float(str) correctly rounded and round() = half-even (assumed); Reals axioms + classic + primitive axioms (interval).",
    technique="Coq proof over a Flocq binary64 model + bit-exact vm_compute correspondence", ref="DESIGN.md section 4 C11"),
+ 'C12': dict(
+   text="Coq theorems: (purity) for every non-recursive set of custom potential forms, each owning ONE symbol table that is overwritten on every call (model/Evaluator.v, a state machine over the tables), every form evaluates to the substitution semantics of its definition for every argument list and EVERY contents of the tables left by earlier calls -- shared sub-forms called with different arguments included (c12_forms_pure), hence for every order and interleaving of evaluations (c12_history_pure, induction over the history); "
+        "(determinism) for every history of build / write / evaluate operations over several tabulation objects with lazy caches, per-model symbol tables and objects shared through default arguments, every observation equals the one of a freshly built object (c12_history_deterministic, invariant by induction over operations, refinement to a stateless spec); "
+        "(hash order) the element order of under-specified EAM models is independent of the iteration order of the species set (c12_element_order). "
+        "Process-level determinism (fresh process, PYTHONHASHSEED) cannot be a theorem about a model: it is exercised by subprocess runs (partial). "
+        "Tie: exact-body assertions of __call__ / _init_symbol_table / register_function / mutual registration / lazy caches / zero-fill loop and a fail-closed static check that shared default objects are never mutated; energies of generated form sets under generated histories compared with the model's run by vm_compute; real build/write/evaluate histories compared observation by observation with fresh processes under other hash seeds; potable under several seeds.",
+   note="Trusted: Coq kernel (no axioms); hand-written state machines tied by AST assertions + behavioural comparison; cexprtk assumed to evaluate expressions as written reading variables at evaluation time; non-recursive forms; xlsx compared as sheet contents (zip timestamps).",
+   technique="Coq proof (state-machine purity by mutual induction, cache-coherence invariant over operation histories) + vm_compute and fresh-process differential correspondence", ref="DESIGN.md section 4 C12"),
  'C13': dict(
    text="Coq theorems over model/Filter.v with FilteredConfigParser._check_tuple regenerated from the source: include S keeps exactly the entries all of whose species are in S, exclude S those none of whose species is in S; the filtered pair/embedding/density lists equal the parse of the file with the offending lines deleted (order and surviving entries unchanged); "
         "a read through a view depends on that view's own settings only, for every history of creating and reading views (induction over the history); the shared-state behaviour before the repair is refuted in Coq. "
